@@ -13,6 +13,14 @@ CHECKS = {
          "Sound static analysis of structural necessary conditions: every path of RateLimitedIssuer.Evaluate that returns a response passes the success edges of complete parse, HPKE open under the issuer's own key with the request key in the associated data, registered-origin lookup and request-signature verification over all fields; BlindSign/Seal sit behind those edges; the request decoder checks every read and rejects trailing data. Quantifies over paths, hence over all inputs. Does not prove AEAD/ECDSA soundness (every single-bit change rejected).",
          "Trusts go/ssa dominators, this checker's term/reader extraction, go-hpke, circl blindrsa and crypto/elliptic behaving as documented.",
          "DESIGN.md §4 C07"),
+ "C02": ("guard-dominance (must-pass-through) on SSA with symbolic argument bindings; constructor-binding and who-writes-field queries",
+         "Sound static analysis of structural necessary conditions: every path of each FinalizeToken(s) that returns a token passes the success edge of the type's verification step bound to the state's pinned client/verifier/key; the returned token is decode(state token input ++ verified output); constructors bind the pinned state to the key/nonce/challenge/key id they were called with and nothing else writes it; type 5: count check and index-for-index pairing. Quantifies over paths (all responses). Does not prove that DLEQ/PSS/GCM reject every forged response.",
+         "Trusts go/ssa dominators, this checker's term evaluator, circl oprf/blindrsa, crypto/rsa, crypto/cipher behaving as documented.",
+         "DESIGN.md §4 C02"),
+ "C10": ("guard-dominance on SSA with symbolic argument bindings",
+         "Sound static analysis of a structural necessary condition: every accepting path of the type-1/type-5 Verify passes bytes.Equal(FullEvaluate(own key, suite, type||nonce||context||keyid from the token's own fields), token.Authenticator)=true on whole values. Quantifies over paths (all tokens). Does not prove the PRF separates inputs.",
+         "Trusts go/ssa dominators, this checker's term evaluator, circl oprf FullEvaluate, bytes.Equal.",
+         "DESIGN.md §4 C10"),
 }
 PENDING_REASON = "check under construction in this round (see DESIGN.md §4 for the planned static rule); not claimed until the rule runs clean on the tree and fires on its seeded breakage"
 NOT_APPLICABLE = {}
